@@ -1,70 +1,29 @@
 """Per-property configuration of the orchestrator (bin/check).
 
+One JSON file per property in tools/props.d/<id>.json (so that branches never conflict):
+
 groups      harness generator groups whose cases decide the property (qvh gen <group> …)
 module      Lean module holding the property's theorems (QV.Properties.<id> by default)
 features    cargo features of /repo the harness needs for this property
 strict_err  compare error *variants* between implementation and model for the verdict
             (only where the property names the error; otherwise informational)
 design_ref  DESIGN.md section
+technique, level_text, level_note, assumptions, evidence_notes   free text for MANIFEST/evidence
 """
+import glob
+import json
+import os
 
-PROPS = {
-    "C15": {
-        "groups": ["reader"],
-        "design_ref": "§6 C15",
-        "technique": "Lean 4 proof: every reader operation total (no panic), atomic on failure, and ↔ the RFC 1035 §4.1.2/§4.1.3 question/record relation; peek+skip = skip_rr, peek+parse = read_rr; model tied to src/message/reader.rs by differential correspondence on op sequences over generated and truncated messages",
-    },
-    "C14": {
-        "groups": ["wire"],
-        "design_ref": "§6 C14",
-        "technique": "Lean 4 proof: parser ↔ inductive RFC 1035 §4.1.4 relation (sound+complete, no panic, termination); model tied to src/name/wire.rs by differential correspondence incl. exhaustive ≤5-octet buffers",
-    },
-    "C18": {
-        "groups": ["rdata"],
-        "design_ref": "§6 C18",
-        "technique": "Lean 4 proof: Rdata::validate ↔ per-RFC RDATA grammar for every (class,type); Rdata::read never panics, is sound w.r.t. the decompression spec and round-trips valid RDATA; dispatch tables extracted from src/rr/rdata/mod.rs; differential correspondence incl. every (cursor, rdlength) on short messages",
-        "assumptions": [
-            "usize is 64 bits; Rdata::read is called with cursor + rdlength ≤ usize::MAX (true for every cursor that is an offset into a message); the overflow panic outside that range is modelled and compared, not constrained by the spec",
-        ],
-    },
-    "C19": {
-        "groups": ["rdata"],
-        "design_ref": "§6 C19",
-        "technique": "Lean 4 proof: Rdata::equals = spec equality (field-wise, names case-insensitive, octet-wise fallback) for every (class,type) and all inputs, hence an equivalence; RdataSetOwned::from_iter/iter = first-of-each-class; dispatch tables extracted; differential correspondence on pairs, triples and sets",
-        "assumptions": [
-            "RdataSet length prefixes use native endianness (modelled little-endian; encode and decode agree, so unobservable)",
-        ],
-    "C06": {
-        "groups": ["zone"],
-        "design_ref": "§6 C06 zone lookups · C20 zone store · C21 validation · C22 catalog",
-        "technique": "Lean 4 proof: tree lookup (lookup_impl) = flat-record-list RFC 1034 §4.3.2 / RFC 4592 specification for every add sequence, name, type and option combination (tree invariant + abstraction); model tied to src/db/hash_map_tree/{zone,node}.rs, src/db/rrset.rs by differential correspondence on whole zone sessions incl. exhaustive small zones",
-    },
-    "C20": {
-        "groups": ["zone"],
-        "design_ref": "§6 C06 zone lookups · C20 zone store · C21 validation · C22 catalog",
-        "strict_err": True,
-        "technique": "Lean 4 proof: add succeeds ↔ owner/class/TTL conditions, rejected add leaves the tree unchanged, abstraction to the flat de-duplicated record list commutes with add, iteration is a permutation of the specified nodes/RRsets; correspondence on add sequences with iteration after every prefix",
-    },
-    "C21": {
-        "groups": ["zone"],
-        "design_ref": "§6 C06 zone lookups · C20 zone store · C21 validation · C22 catalog",
-        "technique": "Lean 4 proof: validate (as a set) = issues of a reference checker stated as a predicate over the flat record list; severity split extracted from ValidationIssue::is_error (tools/extract_validation.py); correspondence on random and exhaustive zones under both glue policies and classes IN/CH/HS",
-    },
-    "C22": {
-        "groups": ["catalog"],
-        "design_ref": "§6 C06 zone lookups · C20 zone store · C21 validation · C22 catalog",
-        "technique": "Lean 4 proof: the catalog tree refines a finite map (class × case-folded name) ⇀ entry for every history of inserts/removes (invariant + abstraction function; lookup = longest suffix, get = exact, iter = permutation of the bindings, frame theorems for remove/insert); model tied to src/db/hash_map_tree/catalog.rs, src/db/catalog.rs, src/db/single_zone_catalog.rs by whole-history differential correspondence incl. exhaustive histories over 4 nested names",
-        "evidence_notes": [
-            "one case = one whole history; every step's result (returned entry, lookup, get, sorted iter) is compared; Loaded entries are checked for Arc pointer identity with the zone inserted",
-            "quick: all histories of <= 5 inserts/removes over the chain . a. b.a. c.b.a. and <= 4 over the tree a. b.a. c.a. d.b.a.; thorough: <= 5 over both",
-        ],
-    },
-}
+_HERE = os.path.dirname(os.path.abspath(__file__))
+PROPS = {}
+for _p in sorted(glob.glob(os.path.join(_HERE, "props.d", "C*.json"))):
+    with open(_p, encoding="utf-8") as _f:
+        PROPS[os.path.basename(_p)[:-5]] = json.load(_f)
 
 TRUSTED_BASE = [
     "Lean 4.33.0 kernel (leanchecker re-check in the thorough tier)",
     "axioms allowed: propext, Classical.choice, Quot.sound (audited per theorem with #print axioms); no sorry/admit/native_decide/bv_decide/own axioms",
     "QV/Spec/*: that the specification says what the property says (DESIGN.md §6 records every interpretation)",
     "correspondence check (harness/ + Lean driver + canonicaliser): differential testing that the hand-written model mirrors /repo's current source; the extractor (tools/extract.py) ties constants and tables",
-    "rustc/cargo dev profile (overflow checks on); std, arrayvec, hashbrown, hmac/sha crates as used by quandary",
+    "rustc/cargo dev profile (overflow checks on); std, arrayvec, hashbrown, hmac/sha crates as used by quandary"
 ]
